@@ -152,7 +152,7 @@ class Wrapped:
         self.cached = lru_cache(fn)
         self.memo = getattr(self.cached, "__wrapped__", None)
         if self.memo is None or not hasattr(self.memo, "cache_info"):
-            raise core.MachineryError("lru_cache(fn).__wrapped__ is not a functools cache object")
+            self.memo = None      # not a functools cache object: reported as a broken tie by the caller, the oracle still applies
 
     def call(self, key, rendering):
         a, kw = KEYS[key]["renderings"][rendering % len(KEYS[key]["renderings"])]
@@ -191,8 +191,9 @@ def run_l1(progs, policy, points=cache_points):
         raise core.MachineryError("cache scheduler reports a deadlock although the cache has no lock")
     raised_at = [[r for (t, _, r) in w.runs if t == i] for i in range(len(progs))]
     kinds = classify(pol.log, raised_at)
-    info = w.memo.cache_info()
-    obs = {"outs": outs, "runs": [[t, k] for t, k, _ in w.runs], "hits": info.hits, "misses": info.misses, "currsize": info.currsize}
+    info = w.memo.cache_info() if w.memo is not None else None
+    obs = {"outs": outs, "runs": [[t, k] for t, k, _ in w.runs], "hits": info.hits if info else None, "misses": info.misses if info else None,
+           "currsize": info.currsize if info else None}
     # what stayed in the cache: probe every requested key serially (a hit returns the stored value, a miss shows it is absent)
     before = len(w.runs)
     stored = {}
@@ -242,6 +243,8 @@ def compare_l1(ctx, progs, obs, kinds):
         return f"stored values differ: real {rstored} vs model {mstored} (run numbers per key)"
     mh = sum(1 for _, k in kinds if k == "hit")
     mm = sum(1 for _, k in kinds if k == "miss")
+    if obs["currsize"] is None:
+        return "lru_cache(fn).__wrapped__ is not a functools cache object (no cache_info)"
     if (obs["hits"], obs["misses"], obs["currsize"]) != (mh, mm, len(conf["cache"])):
         return f"cache_info differs: real hits/misses/currsize {(obs['hits'], obs['misses'], obs['currsize'])} vs model {(mh, mm, len(conf['cache']))}"
     return None
@@ -268,7 +271,7 @@ def oracle_l1(progs, obs):
             return f"thread {t} finished {len(obs['outs'][t])} of {len(p)} calls"
     want = sorted({k for p in progs for k, _ in p if not KEYS[k]["raises"]})
     have = sorted(k for k, v in obs["stored"].items() if v is not None)
-    if want != have or obs["currsize"] != len(want):
+    if want != have or (obs["currsize"] is not None and obs["currsize"] != len(want)):
         return f"final cache holds keys {have} (currsize {obs['currsize']}), a serial execution leaves {want}"
     for k, v in obs["stored"].items():
         if v is not None and (v[0] != "ok" or v[1][1] != k):
@@ -402,10 +405,10 @@ def run_l2(names, tag, policy):
     caches = {}
     for op in ops:
         cs = find_caches(getattr(einx, op))
-        if len(cs) != 1:
-            raise core.MachineryError(f"einx.{op}: expected one functools cache behind the operation, found {len(cs)}")
-        caches[op] = cs[0]
-    before = {op: caches[op].cache_info() for op in ops}
+        caches[op] = cs[0] if len(cs) == 1 else None      # None: reported as a broken tie by compare_l2
+    Z = type("Z", (), {"hits": 0, "misses": 0, "currsize": 0})
+    info_of = lambda op: caches[op].cache_info() if caches[op] is not None else Z   # noqa: E731
+    before = {op: info_of(op) for op in ops}
     sched = C.Scheduler([L.__file__], point_filter=cache_points)
     outs = [[] for _ in names]
     runs = []                       # (thread, key, raised) per run of _construct_graph, via the events of func_unfrozen
@@ -453,9 +456,10 @@ def run_l2(names, tag, policy):
             if cinfo["computed"]:
                 raised_at[t].append(outs[t][j][0] == "raised")
     kinds = classify(pol.log, raised_at)
-    after = {op: caches[op].cache_info() for op in ops}
-    delta = {op: [after[op].hits - before[op].hits, after[op].misses - before[op].misses, after[op].currsize - before[op].currsize] for op in ops}
-    return {"outs": outs, "delta": delta}, choices, kinds
+    after = {op: info_of(op) for op in ops}
+    delta = {op: [after[op].hits - before[op].hits, after[op].misses - before[op].misses, after[op].currsize - before[op].currsize] for op in ops
+             if caches[op] is not None}
+    return {"outs": outs, "delta": delta, "no_cache_object": [op for op in ops if caches[op] is None]}, choices, kinds
 
 
 def compare_l2(ctx, names, obs, kinds):
@@ -477,6 +481,8 @@ def compare_l2(ctx, names, obs, kinds):
         if ro != want:
             return f"thread {t}: real results {ro} vs model {want}"
     op_of = {E2E_KEY[n]: calls[n][2] for n in E2E_KEY}
+    if obs.get("no_cache_object"):
+        return f"no single functools cache object behind einx.{obs['no_cache_object'][0]}"
     for op, (h, m, cs) in obs["delta"].items():
         mh = sum(1 for (t, k), key in zip(kinds, step_keys(progs, kinds)) if k == "hit" and op_of[key] == op)
         mm = sum(1 for (t, k), key in zip(kinds, step_keys(progs, kinds)) if k == "miss" and op_of[key] == op)
